@@ -171,7 +171,7 @@ def plan(tier, seed):
     archs = env.ALL_ARCHS if tier == "thorough" else ["zen1", "spr", "zen3", "tx2", "n1", "a72"]
     for j in range(6):
         shards.append({"kind": "corpus", "archs": archs[j::6], "tier": tier, "seed": seed})
-    m = {"quick": 70, "thorough": 2500}[tier]
+    m = {"quick": 70, "thorough": 600}[tier]
     for j, g in enumerate([["zen1", "icx"], ["hsw", "zen3"], ["tx2", "n1"], ["a64fx", "v2"]]):
         shards.append({"kind": "memloop", "isa": env.isa_of(g[0]), "archs": g, "seed": seed * 1000 + 1450 + j, "n": m})
     return shards
